@@ -18,6 +18,7 @@ import (
 	"fmt"
 	"net/url"
 	"regexp"
+	"strings"
 
 	"github.com/oxia-db/oxia/common/compare"
 	"github.com/oxia-db/oxia/common/constant"
@@ -347,10 +348,28 @@ func doSecondaryGet(db kv.DB, req *proto.GetRequest) (primaryKey string, seconda
 	} else {
 		// For all the other cases, we set the iterator on >=
 		it.SeekGE(searchKey)
+		if !it.Valid() && req.ComparisonType == proto.KeyComparisonType_FLOOR {
+			// The search key is after the last key of the database: the floor, if any, is before it
+			it.SeekLT(searchKey)
+		}
 	}
+
+	// The entries of all indexes (and the other internal keys) are neighbours in the same key space:
+	// only the keys under this prefix belong to the index that was asked for.
+	indexPrefix := fmt.Sprintf(secondaryIdxRangePrefixFormat, indexName, "")
 
 	for it.Valid() {
 		itKey := it.Key()
+		if !strings.HasPrefix(itKey, indexPrefix) {
+			backwards := req.ComparisonType == proto.KeyComparisonType_FLOOR || req.ComparisonType == proto.KeyComparisonType_LOWER
+			if backwards && compare.CompareWithSlash([]byte(itKey), []byte(indexPrefix)) > 0 {
+				// We're past the end of this index, its last entry is the candidate
+				it.Prev()
+				continue
+			}
+			// We walked out of the index without finding a match
+			return "", "", nil
+		}
 		primaryKey, secondaryKey, err = secondaryIndexPrimaryAndSecondaryKey(itKey)
 		if err != nil && !errors.Is(err, errFailedToParseSecondaryKey) {
 			return "", "", err
